@@ -51,6 +51,7 @@ S4ScriptSeq == <<
     Sc("cl", 4, NoCut, TRUE, "none", "none", 3, "http"),
     Sc("chunked", 2, NoCut, TRUE, "none", "none", 1, "cells"),
     Sc("chunked", 2, NoCut, TRUE, "none", "none", 2, "cells"),
+    Sc("chunked", 4, NoCut, TRUE, "none", "none", 4, "http"),    \* one chunk: cell | head-shaped block, cell, cell, term
     Sc("cl", 2, NoCut, TRUE, "none", "none", 3, "cells")      \* the whole reply is late: the client times out on the head
 >>
 FinalScriptSeq == <<
@@ -63,7 +64,8 @@ AllOpSeq == <<
     Op("preload", 0, FALSE), Op("read", 0, FALSE), Op("stream", 0, FALSE), Op("drain", 0, FALSE),
     Op("close", 0, FALSE), Op("ignore", 0, TRUE),
     Op("readk", 1, FALSE), Op("readk", 2, FALSE), Op("readk", 3, FALSE), Op("readk", 1, TRUE),
-    Op("release", 0, FALSE), Op("release", 0, TRUE)
+    Op("release", 0, FALSE), Op("release", 0, TRUE),
+    Op("streamk", 1, FALSE), Op("read1", 0, FALSE), Op("read1loop", 0, FALSE)
 >>
 CoreOpSeq == <<
     Op("preload", 0, FALSE), Op("read", 0, FALSE), Op("stream", 0, FALSE), Op("ignore", 0, TRUE),
@@ -85,8 +87,10 @@ DevNoProbe == {"NoProbe"}
 DevProbeEofOnly == {"ProbeEofOnly"}
 DevNoCloseOnUnclean == {"NoCloseOnUnclean"}
 DevNoDiscardOnError == {"NoDiscardOnError"}
-DevRawNotReady == {"RawNotReady"}
-DevReleaseCloses == {"ReleaseClosesUnread"}
+DevRawNotReady == {"RawNotReady", "ReleaseKeepsUnread"}   \* ResponseNotReady needs a pooled connection with an open response
+DevReleaseKeeps == {"ReleaseKeepsUnread"}
+DevAbandoned == {"AbandonedStreamLooksClean"}
+DevRead1Asked == {"Read1AskedIsRead"}
 
 \* ---- sharding over the first step's choice, emission at the end of each complete behaviour
 Idx(seq, x) == CHOOSE i \in DOMAIN seq : seq[i] = x
